@@ -43,6 +43,10 @@ CLAIMED = {
                  "and by real DSA-tuto/Max-Sum computations; every start order and per-channel-FIFO interleaving is explored (sleep-set reduced); the oracle compares each "
                  "on_new_cycle call with the tagged messages actually sent in the previous round.",
             "Bounded: pair (3 rounds), chain-3 (2 rounds), triangle and star-3 (1 complete round in quick, 2 in thorough), subsets fixed per computation on the larger graphs; NCBB not driven.", "4/C08", S),
+    "C10": ("S", "One generic harness runs the real computations of all 11 listed algorithms on their real graph models with symbolic tables, symbolic noise and "
+                 "arbitrary random choices; a monitor on the value_selection funnel and on current_value decides on every explored path that each reported value is unset or a domain member.",
+            "Bounded: pair, pair+isolated variable (chain-3 for some), domain 2, canonical schedule in quick (all schedules on the pair in thorough), 16-40 transitions per run; "
+            "maxsum/amaxsum tables are reals (mixed int/real queries time out in z3).", "4/C10", S),
     "C12": ("S", "set_value_for_assignment, join and projection executed on symbolic matrix tables; the cell-wise algebraic definition is one "
                  "solver query per path, for every table value, assignment, scope pair and both argument forms.",
             "Bounded: 4 variables with domains 2,2,3,2, scopes of size <= 3, integer (and real, thorough) entries |c| <= 2^40; numpy float64 rounding above 2^53 not modelled.", "4/C12", S),
